@@ -198,6 +198,41 @@ def _trace_prefix(fk, tr, ops, k):
     return ""
 
 
+def typed_equal(a, b):
+    """deep equality that also compares types (1 != 1.0 != True, -0.0 != 0.0)"""
+    if type(a) is not type(b):
+        return False
+    if isinstance(a, (list, tuple)):
+        return len(a) == len(b) and all(typed_equal(x, y) for x, y in zip(a, b))
+    if isinstance(a, dict):
+        return len(a) == len(b) and all(any(typed_equal(k, k2) and typed_equal(v, b[k2]) for k2 in b) for k, v in a.items())
+    if isinstance(a, (set, frozenset)):
+        return len(a) == len(b) and all(any(typed_equal(x, y) for y in b) for x in a)
+    if isinstance(a, float):
+        return repr(a) == repr(b)
+    return a == b
+
+
+def run_plain(src, data):
+    """plain data: execute the decompiled program with the REAL builtins it needs (no stand-ins) and compare the
+    result with what the stock unpickler builds from the same bytes"""
+    import builtins
+    import pickle as _p
+    allowed = {"builtins", "__builtin__", "_codecs", "copy_reg", "copyreg"}
+
+    def imp(name, globals=None, locals=None, fromlist=(), level=0):  # noqa: A002
+        if name not in allowed:
+            raise ImportError("plain data must not need " + name)
+        return __import__("builtins" if name == "__builtin__" else ("copyreg" if name == "copy_reg" else name), globals, locals, fromlist, level)
+    env = {"__builtins__": {**{k: getattr(builtins, k) for k in ("set", "frozenset", "bytearray", "complex", "range", "slice", "bytes", "str", "int", "float", "bool", "list", "dict", "tuple", "object")}, "__import__": imp}}
+    try:
+        want = _p.loads(data)
+        exec(compile(src, "<plain>", "exec"), env)  # noqa: S102 - plain data only, restricted builtins
+        return {"ran": True, "equal": bool(typed_equal(env.get("result"), want)), "exc": ""}
+    except BaseException as e:  # noqa: BLE001
+        return {"ran": True, "equal": False, "exc": type(e).__name__}
+
+
 def record(item):
     """item = {"id", "prog" (spec ops) [, "hex" (bytes)] [, "variants"] [, "want"]}"""
     ops = item["prog"]
@@ -207,6 +242,13 @@ def record(item):
            "ref": {"ok": ref["ok"], "steps": ref["steps"], "ev": ref["ev"],
                    "res": ref.get("res", {"k": "mark"}), "exc": ref.get("exc", "")}}
     rec["fick"] = record_fick(data, item.get("want", ("steps", "dec", "chk", "trace")))
+    rec["fick"]["plain"] = {"ran": False, "equal": True, "exc": ""}
+    if rec["tag"] == "plain" and rec["fick"]["dec"]["ok"]:
+        import fickling.fickle as fk
+        try:
+            rec["fick"]["plain"] = run_plain(ast.unparse(fk.Pickled.load(data).ast), data)
+        except RecursionError:
+            pass
     return rec
 
 
